@@ -165,11 +165,12 @@ let digest (s : state) =
 (* ---- running tokens ------------------------------------------------------------- *)
 exception Stop of string
 
-(* POLL2 is two characters: use_poll2 and wc_close, e.g. "01" *)
+(* POLL2 is up to three characters: use_poll2, wc_close (default 1), init_guarded (default 0), e.g. "010" *)
 let mk_cfg la sbytes hw sndbuf p2 =
   { lookahead = nn (int_of_string la); send_bytes = nn (int_of_string sbytes); hw = nn (int_of_string hw);
     sndbuf = nn (int_of_string sndbuf); use_poll2 = (p2.[0] = '1');
-    wc_close = (String.length p2 < 2 || p2.[1] = '1') }
+    wc_close = (String.length p2 < 2 || p2.[1] = '1');
+    init_guarded = (String.length p2 >= 3 && p2.[2] = '1') }
 
 (* does the next micro-step of t need an answer / is it a scheduling point *)
 let next_wants s t = match next_instr s t with Some (i, false) -> wants s t i | _ -> false
